@@ -10,6 +10,7 @@ HARNESSES = [
  _h('reshape3', bounds=B3 + '; target dim 1..4 with entries -1 or >=1 forming a valid target (every position of a single -1)'),
  _h('flatten3', bounds=B3),
  _h('transpose3', bounds=B3 + '; axes: every permutation of (0,1,2)'),
+ _h('transpose3_neg', bounds=B3 + '; axes: every permutation given with possibly NEGATIVE entries (each in [-3,2])'),
  _h('transpose3_default', bounds=B3),
  _h('transpose3_twice', bounds=B3 + '; p any permutation, q its inverse'),
  _h('moveaxis3', bounds=B3 + '; source/destination axes in [-3,2]'),
